@@ -328,7 +328,10 @@ class SimFS(object):
             if name not in self.files:
                 raise FileNotFoundError(errno.ENOENT, 'No such file or directory', name)
         elif 'w' in mode:
-            self.files[name] = bytearray()
+            if name in self.files:
+                del self.files[name][:]        # O_TRUNC: the same storage is emptied, handles already open on it see that
+            else:
+                self.files[name] = bytearray()
         elif 'a' in mode:
             self.files.setdefault(name, bytearray())
         h = self._new(name, mode, 'library')
